@@ -1,6 +1,6 @@
 (* C13 - Binning is a total, order-preserving partition into at most n_bins groups.
    Theorems about the executable model model/Binning.v of `bin_feature`
-   (src/model_diagnostics/_utils/binning.py as of /repo commit 9ce4ae5), tied to the code by the
+   (src/model_diagnostics/_utils/binning.py as of /repo commit b2b5cba), tied to the code by the
    correspondence run harness/run_binning.py + corr/CmpBinning.v (every feature type, all 10
    methods).
 
@@ -24,6 +24,10 @@
    pooled under 'other k', k = number of pooled        C13_pooled_k_ge_2, C13_label_is_count
    categories, k >= 2                                  (k < 1000; above `_format_integer` rounds to
                                                        three digits by design)
+   every documented feature type is accepted           C13_numeric_accepted (float / integer columns with
+                                                       nulls, NaN, infinities, only nulls, only
+                                                       infinities), C13_string_accepted (String,
+                                                       Categorical, Enum)
    never colliding with a real category                C13_pooled_label_fresh (every category of the
                                                        feature, kept or merged),
                                                        C13_pooled_label_fresh_enum (every declared
@@ -41,12 +45,14 @@
    * 9ce4ae5 - a numeric column with only null / NaN values raised TypeError; now every row
      goes to the null bin and n_bins = int(has_nulls) (BinningProps.all_null_example; covered
      by C13_bin_total, C13_groups_le_returned, C13_groups_le_n_bins).
+   * b2b5cba - a numeric column whose only non-null values are +inf / -inf raised TypeError
+     (one sign) or, with both signs and "uniform", got NaN edges; now one bin [min, max]
+     (for "quantile" with both signs: the bins [-inf,-inf], (-inf, inf]).  The model has no
+     rejecting branch left for float / integer columns: C13_numeric_accepted,
+     C13_string_accepted ("every documented feature type is accepted").  The constructor
+     NNanEdges of the model is an old record that no input reaches any more.
 
    NOT proved / outside the model:
-   * KNOWN FINDING, still open (harness tag "inf_only"): a numeric column whose non-null values
-     are all +inf / -inf raises TypeError (one sign only; model: NErr ETypeError) or, with both
-     signs and "uniform", returns NaN edges (model: NNanEdges).  The theorems are stated for
-     runs that return NOk / SOk; the judge reports these inputs as failures.
    * Boolean columns are not a documented feature type (out of scope of the property).  The
      model still reproduces what the code does with them (KBool: rejected by the eight numpy
      rules and with nulls; bin numbers stored as Booleans) so that the correspondence stream
@@ -195,6 +201,19 @@ Theorem C13_old_loop_label_collides :
     NoDup names /\ In c (cats feature) /\ name_of names c = old_pooled_label names feature n_bins.
 Proof. exact old_loop_label_collides. Qed.
 Print Assumptions C13_old_loop_label_collides.
+
+(* "every documented feature type is accepted" *)
+Theorem C13_numeric_accepted : forall feature n_bins m interior,
+  (2 <= n_bins)%nat ->
+  exists n edges table rows, bin_numeric KNum feature n_bins m interior = NOk n edges table rows.
+Proof. exact bin_numeric_accepts. Qed.
+Print Assumptions C13_numeric_accepted.
+
+Theorem C13_string_accepted : forall kind names feature n_bins,
+  (2 <= n_bins)%nat ->
+  exists n kept label k bins, bin_string kind names feature n_bins = SOk n kept label k bins.
+Proof. exact bin_string_accepts. Qed.
+Print Assumptions C13_string_accepted.
 
 (* ---- numpy's histogram rules sturges / sqrt / rice modelled exactly (proofs/NumpyRulesProps.v) ---- *)
 From Coq Require Import NArith QArith List Bool.
